@@ -986,4 +986,39 @@ theorem pyMod_index (x : Int) (Z : Nat) (hZ : 0 < Z) : (pyMod x Z).toNat < Z := 
   omega
 
 
+theorem elemAt_lt {α : Type} (l : List α) (i : Int) (h0 : 0 ≤ i) (h1 : i < l.length) : ∃ v, elemAt l i = some v := by
+  unfold elemAt
+  rw [if_neg (by omega)]
+  have : i.toNat < l.length := by omega
+  exact ⟨l[i.toNat], List.getElem?_eq_getElem this⟩
+
+/-- **The snake loop cannot panic or run out of fuel from a non-negative start**, in either direction: every element
+it compares exists, and it stops after at most `N − a` steps. -/
+theorem snake_total {α : Type} [DecidableEq α] (e f : List α) (o m : Int)
+    (hom : (o = 1 ∧ m = 1) ∨ (o = 0 ∧ m = -1)) (fuel : Nat) (a b : Int) (ha : 0 ≤ a) (hb : 0 ≤ b)
+    (hfuel : (e.length : Int) - a < fuel) (hpos : 0 < fuel) : ∃ r, snake e f o m fuel a b = some r := by
+  induction fuel generalizing a b with
+  | zero => omega
+  | succ fuel ih =>
+    rw [snake_succ]
+    by_cases hc : a < (e.length : Int) ∧ b < (f.length : Int)
+    · rw [if_pos hc]
+      have hi : ∃ x, elemAt e (idx o m e.length a) = some x := by
+        rcases hom with ⟨rfl, rfl⟩ | ⟨rfl, rfl⟩
+        · rw [idx_fwd]; exact elemAt_lt e a ha hc.1
+        · rw [idx_rev]; exact elemAt_lt e _ (by omega) (by omega)
+      have hj : ∃ y, elemAt f (idx o m f.length b) = some y := by
+        rcases hom with ⟨rfl, rfl⟩ | ⟨rfl, rfl⟩
+        · rw [idx_fwd]; exact elemAt_lt f b hb hc.2
+        · rw [idx_rev]; exact elemAt_lt f _ (by omega) (by omega)
+      obtain ⟨x, hx⟩ := hi
+      obtain ⟨y, hy⟩ := hj
+      rw [hx, hy]
+      simp only
+      by_cases hxy : x = y
+      · rw [if_pos hxy]; exact ih (a + 1) (b + 1) (by omega) (by omega) (by omega) (by omega)
+      · rw [if_neg hxy]; exact ⟨_, rfl⟩
+    · rw [if_neg hc]; exact ⟨_, rfl⟩
+
+
 end Myers
